@@ -45,34 +45,59 @@ def qual_probes(rng, st):
 
 
 def make_probes(rng, st, train):
-    """list of (tag, cells) probe columns for one fitted feature"""
+    """list of (tag, cells, dtype) probe columns for one fitted feature"""
     probes = []
-    has_nan = any(isinstance(v, str) and v == st["str_nan"] for _, vs in st["content"] for v in decs(vs))
+    vals = [v for _, vs in st["content"] for v in decs(vs)]
+    nan_known = B.isin(st["str_nan"], vals)
+    nan_own = B.isin(st["str_nan"], decs(st["keys"]))
     if st["kind"] == "quant":
         base = quant_probes(rng, st, train)
-        probes.append(("numbers", base))
+        probes.append(("numbers", base, "float64"))
         withnan = list(base[: max(3, len(base) // 3)])
         for _ in range(2):
             withnan.insert(rng.randint(0, len(withnan)), NAN)
-        probes.append(("numbers+nan", withnan))
-        probes.append(("single", [rng.choice(base)]))
-        probes.append(("single-nan", [NAN]))
+        probes.append(("numbers+nan", withnan, "float64"))
+        probes.append(("single", [rng.choice(base)], "float64"))
+        probes.append(("single-nan", [NAN], "float64"))
+        # the same numbers stored otherwise: python objects (None / nan for missing), nullable
+        # Int64 / Float64 (pd.NA for missing), int64 (float32 is out: numpy compares in float32 there)
+        small = rng.sample(base, min(10, len(base)))
+        probes.append(("object", small, "object"))
+        miss = list(small[:5])
+        miss.insert(rng.randint(0, len(miss)), NAN)
+        probes.append(("object+missing", miss, rng.choice(["object", "object-nan"])))
+        ints = sorted({int(math.floor(x)) for x in base if math.isfinite(x) and abs(x) < 2 ** 52})
+        ints = rng.sample(ints, min(8, len(ints))) or [0]
+        kind = rng.choice(["Int64", "Float64", "int64"])
+        if kind == "Int64":
+            probes.append(("Int64", ints, "Int64"))
+        elif kind == "Float64":
+            probes.append(("Float64", small, "Float64"))
+        else:
+            probes.append(("int64", ints, "int64"))
+        # pd.NA in a nullable column: unknown missing value, or missing values grouped with numbers
+        # (with NaN as its OWN modality numpy.select refuses the masked comparisons: reported apart)
+        if not nan_known or not nan_own:
+            k2 = rng.choice(["Int64", "Float64"])
+            cells = list(ints[:4]) if k2 == "Int64" else list(small[:4])
+            cells.insert(rng.randint(0, len(cells)), NAN)
+            probes.append((k2 + "+NA", cells, k2))
     else:
         known = qual_probes(rng, st)
-        probes.append(("known", list(known)))
+        probes.append(("known", list(known), None))
         unseen = rng.sample(UNSEEN, rng.randint(1, 3))
         mix = list(known) + unseen
         rng.shuffle(mix)
-        probes.append(("unseen", mix))
+        probes.append(("unseen", mix, None))
         one = rng.choice(UNSEEN)
-        probes.append(("single-unseen", [one]))
+        probes.append(("single-unseen", [one], None))
         withnan = list(known)
         withnan.insert(rng.randint(0, len(withnan)), NAN)
-        probes.append(("known+nan", withnan))
-        probes.append(("literal-markers", list(known) + [st["str_nan"], st["str_default"]]))
+        probes.append(("known+nan", withnan, None))
+        probes.append(("literal-markers", list(known) + [st["str_nan"], st["str_default"]], None))
         if known:
-            probes.append(("single", [rng.choice(known)]))
-    probes.append(("empty", []))
+            probes.append(("single", [rng.choice(known)], None))
+    probes.append(("empty", [], "float64"))
     return probes
 
 
@@ -151,6 +176,11 @@ def oracle_c05(st_json, cells, outs, fitted=True):
         if not any(leq(o, l) for l in labels):
             return False, (f"feature {st_json['name']}: cell {c!r} -> {o!r} which is not a fitted label "
                            f"(raw value passed through)")
+        if st.kind == "quant" and not C.is_nan(c):
+            l = st.first_geq(c)
+            if l is not None and not leq(o, st.label(l)):
+                return False, (f"feature {st_json['name']}: cell {c!r} -> {o!r}, but the first boundary >= it "
+                               f"is {l!r} with label {st.label(l)!r}")
         if (st.kind == "qual" and not C.is_nan(c) and not B.isin(c, vals)
                 and not (isinstance(c, str) and c == st.nan) and B.isin(st.default, vals)):
             d = st.label(st.group(st.default))
@@ -181,6 +211,9 @@ class C05(B.C04):
         "cells of a quantitative column are numbers or NaN (a float64 column)",
         "a raw value that leaks with output_dtype='float' and equals a rank cannot be told from a "
         "label by observation; the model tells them apart",
+        "pd.NA in a nullable Int64/Float64 column is probed only when missing values are unknown to the "
+        "feature or grouped with numbers (with NaN as its own modality numpy.select raises TypeError on "
+        "/repo HEAD: reported to the coordinator, not generated)",
     ] + B.C04.assumptions[:3]
 
     def corpus(self):
@@ -188,7 +221,7 @@ class C05(B.C04):
         return hand_cases(random.Random(5))
 
     def generate(self, rng, tier):
-        n = 170 if tier == "quick" else 2000
+        n = 120 if tier == "quick" else 1500
         cases = []
         for i in range(n):
             cls = B.CLASSES[i % len(B.CLASSES)]
@@ -223,18 +256,21 @@ class C05(B.C04):
         for f in kept:
             st = B.extract_state(obj, f["name"])
             train = f.get("train") or decs(f["values"])
-            for tag, cells in make_probes(rng, st, train):
-                X = B.probe_frame(sub, f["name"], cells)
+            for tag, cells, dtype in make_probes(rng, st, train):
+                variant = rng.choice(B.INDEX_VARIANTS)
+                X = B.reindexed(B.probe_frame(sub, f["name"], cells, dtype or "float64"), variant, rng)
                 outs, exc = B.run_transform(obj, X, [f["name"]])
                 states.append(st)
-                runs.append({"tag": tag, "cells": encs(cells), "out": outs[f["name"]], "exc": exc})
+                runs.append({"tag": tag, "index": variant, "cells": encs(cells), "out": outs[f["name"]],
+                             "exc": exc})
         return {"features": states, "runs": runs}
 
     def oracle(self, case, out):
         for st, r in zip(out["features"], out["runs"]):
             ok, msg = oracle_c05(st, r["cells"], r["out"], fitted=case["cls"] != "Base")
             if not ok:
-                return False, f"[probe {r['tag']}] {msg}" + (f" ({r['exc']})" if r.get("exc") else "")
+                return False, (f"[probe {r['tag']}, index {r.get('index')}] {msg}"
+                               + (f" ({r['exc']})" if r.get("exc") else ""))
         return True, ""
 
     def signature(self, case, out):
@@ -261,7 +297,7 @@ class C05(B.C04):
 
     def distribution(self, cases, outs):
         d = super().distribution(cases, outs)
-        tags, outcomes, ncells = {}, {}, 0
+        tags, outcomes, ncells, idx = {}, {}, 0, {}
         for o in outs:
             if isinstance(o, dict) and "runs" in o:
                 for r in o["runs"]:
@@ -269,7 +305,8 @@ class C05(B.C04):
                     k = r["out"] if isinstance(r["out"], str) else "labels"
                     outcomes[k] = outcomes.get(k, 0) + 1
                     ncells += len(r["cells"])
-        d.update({"probe_frames": tags, "outcomes": outcomes, "probe_cells": ncells})
+                    idx[r.get("index")] = idx.get(r.get("index"), 0) + 1
+        d.update({"probe_frames": tags, "outcomes": outcomes, "probe_cells": ncells, "probe_frame_index": idx})
         return d
 
 
